@@ -1,4 +1,67 @@
-import KfacVerif.Model.Alg
+/-
+C07 — KL clipping bounds the update and only rescales it.
+Over ℝ: nu = min(1, sqrt(kl / |S·lr²|)) (1 when S·lr² = 0) is positive, at most one, satisfies the
+bound, and its square is the rational `KV.Alg.nuSq` the correspondence compares exactly with
+`_compute_grad_scale`; in the reference machine (which M-Precond refines on every rank, C05
+`refines`) one and the same nu multiplies every layer.  Property theorems only.
+-/
+import KfacVerif.Lemmas.ClipAlg
+import Mathlib.Analysis.SpecialFunctions.Pow.Real
+import Mathlib.Analysis.SpecialFunctions.Sqrt
+import Mathlib.Analysis.Real.Sqrt
+import Mathlib.Tactic.Positivity
+import Mathlib.Tactic.Linarith
+import Mathlib.Tactic.FieldSimp
+
 namespace KV.C07
-theorem placeholder : (1:Nat) = 1 := rfl
+
+/- the clip scale `nu kl lr S = if S * lr ^ 2 = 0 then 1 else min 1 (√(kl / |S * lr ^ 2|))`,
+   `S = Σ_layers <V_l, D_l>`, is defined (moved verbatim) in Lemmas/ClipAlg.lean, namespace KV.C07 -/
+
+theorem nu_pos (kl lr S : ℝ) (hk : 0 < kl) : 0 < nu kl lr S := by
+  exact nu_pos' kl lr S hk
+
+theorem nu_le_one (kl lr S : ℝ) : nu kl lr S ≤ 1 := by
+  exact nu_le_one' kl lr S
+
+/-- **the bound**: `nu² · lr² · |Σ<V,D>| ≤ kl_clip` -/
+theorem bound (kl lr S : ℝ) (hk : 0 ≤ kl) : nu kl lr S ^ 2 * lr ^ 2 * |S| ≤ kl ∨ S * lr ^ 2 = 0 := by
+  exact Or.inl (by rw [mul_assoc]; exact nu_bound' kl lr S hk)
+
+theorem bound' (kl lr S : ℝ) (hk : 0 ≤ kl) : nu kl lr S ^ 2 * (lr ^ 2 * |S|) ≤ kl := by
+  exact nu_bound' kl lr S hk
+
+/-- a zero inner product (or zero learning rate) gives `nu = 1` -/
+theorem zero_inner (kl lr S : ℝ) (h : S * lr ^ 2 = 0) : nu kl lr S = 1 := by
+  exact nu_zero kl lr S h
+
+/-- clipping is inactive exactly when the unclipped update already satisfies the bound -/
+theorem inactive_iff (kl lr S : ℝ) (hk : 0 < kl) (hs : S * lr ^ 2 ≠ 0) :
+    nu kl lr S = 1 ↔ lr ^ 2 * |S| ≤ kl := by
+  exact nu_inactive_iff kl lr S hk hs
+
+/-- the executable rational `KV.Alg.nuSq` is `nu²` -/
+theorem nuSq_spec (kl lr S : ℚ) (hk : 0 ≤ kl) :
+    ((KV.Alg.nuSq kl lr S : ℚ) : ℝ) = nu (kl : ℝ) (lr : ℝ) (S : ℝ) ^ 2 := by
+  exact nuSq_spec' kl lr S hk
+
+/-- the weight/bias split of the code (`[:, :-1]`, `[:, -1:]`) sums to the inner product of the
+    combined matrices: `<V, D> = <V_w, D_w> + <V_b, D_b>` -/
+theorem inner_split (g a : ℕ) (V D : KV.Alg.Mat) :
+    KV.Alg.inner g (a + 1) V D =
+      KV.Alg.inner g a V D + KV.Alg.sumTo g fun i => KV.Alg.ent V i a * KV.Alg.ent D i a := by
+  exact inner_split' g a V D
+
+open KV.Precond KV.Spec in
+/-- **only rescales, one scalar for every layer**: the gradients left by a step are `scale n v_l`
+    with one and the same `n` for all layers (and, by C05 `refines`, on all ranks), where `v_l` is
+    the unclipped preconditioned gradient; with `kl_clip = None` they are the `v_l` themselves -/
+theorem only_rescales (c : SCfg) (s : SSt) :
+    let vs := (idxs c).map fun l =>
+      let s1 := Spec.step c { s with hyper := { s.hyper with kl := .const none } }
+      s1.out.getD l .garbage
+    (s.hyper.kl.val s.steps = none → (Spec.step c s).out = vs) ∧
+    (∀ k, s.hyper.kl.val s.steps = some k → ∃ n, (Spec.step c s).out = vs.map fun v => V.scale n v) := by
+  exact only_rescales' c s
+
 end KV.C07
